@@ -269,8 +269,8 @@ type fakeStore struct {
 }
 
 func (s *fakeStore) GetFFLDB() blockchain.IFFLDBChainStore { return &fakeFFLDB{k: s.k} }
-func (s *fakeStore) GetHeight() uint32                      { return s.k.Height }
-func (s *fakeStore) IsTxHashDuplicate(common.Uint256) bool  { return false }
+func (s *fakeStore) GetHeight() uint32                     { return s.k.Height }
+func (s *fakeStore) IsTxHashDuplicate(common.Uint256) bool { return false }
 func (s *fakeStore) IsDoubleSpend(interfaces.Transaction) bool {
 	return false
 }
